@@ -1,3 +1,154 @@
 import Driver.Common
-/-! stub: replaced by the owner of this driver -/
-def main : IO Unit := Driver.run () (fun s _ => (s, "bad-op"))
+import ScionVerif.Model.StdPath
+import ScionVerif.Model.OneHop
+import ScionVerif.Model.AesCmac
+/-! line-protocol driver for the standard-path / one-hop-path model (C11, C12).
+Stateless: every request carries the path bytes (hex) or an owned model in the wire format
+`ci ch nseg { flags segid(2) ts(4) nhops hop(12)* }*` shared with `hx_path`. -/
+open ScionVerif.StdPath ScionVerif.Generated.StdPath Driver
+open ScionVerif.Mac (MacFn)
+
+/-- the executable MAC (AES-128-CMAC, driver only) -/
+def aesMac : MacFn (List UInt8) := fun k i => ScionVerif.AesCmac.hopMac k i.beta i.ts i.exp i.consIn i.consEg
+
+def be (n k : Nat) : List UInt8 := natBE k n
+
+def showM (m : PathM) : List UInt8 :=
+  [UInt8.ofNat m.currInf, UInt8.ofNat m.currHf, UInt8.ofNat m.segs.length] ++
+  (m.segs.map (fun s => [UInt8.ofNat s.info.flags] ++ be s.info.segId 2 ++ be s.info.ts 4 ++
+      [UInt8.ofNat s.hops.length] ++ (s.hops.map HopF.toBytes).flatten)).flatten
+
+def parseSegs : Nat → List UInt8 → Option (List SegM × List UInt8)
+  | 0, b => some ([], b)
+  | n + 1, b =>
+    if b.length < 8 then none else
+    let info : InfoM := { flags := beNat (b.take 1), segId := beNat ((b.drop 1).take 2), ts := beNat ((b.drop 3).take 4) }
+    let nh := beNat ((b.drop 7).take 1)
+    let rest := b.drop 8
+    if rest.length < 12 * nh then none else
+    let hops := decodeN HopF.ofBytes 12 nh rest
+    match parseSegs n (rest.drop (12 * nh)) with
+    | some (ss, r) => some (⟨info, hops⟩ :: ss, r)
+    | none => none
+
+def parseM (b : List UInt8) : Option PathM :=
+  if b.length < 3 then none else
+  let ns := beNat ((b.drop 2).take 1)
+  if ns > 3 then none else
+  match parseSegs ns (b.drop 3) with
+  | some (ss, []) => some { currInf := beNat (b.take 1), currHf := beNat ((b.drop 1).take 1), segs := ss }
+  | _ => none
+
+def optS (o : Option Nat) : String := match o with | some n => toString n | none => "-"
+def b01 (b : Bool) : String := if b then "1" else "0"
+def commaList (xs : List Nat) : String := if xs.isEmpty then "-" else ",".intercalate (xs.map toString)
+
+def vq (p : PathV) : String :=
+  let fe := match p.infos.head?, p.hops.head? with
+    | some i, some h => some (h.egressIf i) | _, _ => none
+  let li := match p.infos.getLast?, p.hops.getLast? with
+    | some i, some h => some (h.ingressIf i) | _, _ => none
+  let ce := match p.infoAt p.currInf, p.hopAt p.currHf with
+    | some i, some h => some (h.egressIf i) | _, _ => none
+  let cin := match p.infoAt p.currInf, p.hopAt p.currHf with
+    | some i, some h => some (h.ingressIf i) | _, _ => none
+  let si := match p.segIndex p.currHf with
+    | some (s, a, e) => s!"{s}:{b01 a}:{b01 e}" | none => "-"
+  s!"ic={p.infoCount} hc={p.hopCount} fe={optS fe} li={optS li} ce={optS ce} cin={optS cin} si={si} segs={commaList (p.segments.map (·.2.length))}"
+
+def advErr : AdvErr → String
+  | .hopOob n => s!"err hop_oob:{n}"
+  | .infoOob n => s!"err info_oob:{n}"
+  | .segIdx e a => s!"err seg_idx:{e}:{a}"
+  | .single => "err state:single"
+  | .segEnd => "err state:segend"
+
+def validatorOf (key : String) : Option Validator :=
+  if key == "-" then some noValidation else
+  match parseHex key with
+  | some k => if k.length = 16 then some (hopMacValidator aesMac k) else none
+  | none => none
+
+def withView (hx : String) (f : PathV → List UInt8 → String) : String :=
+  match parseHex hx with
+  | none => "bad-op"
+  | some b => match ofBytes b with
+    | none => "rejected"
+    | some (p, rest) => f p rest
+
+def withModel (hx : String) (f : PathM → String) : String :=
+  match parseHex hx with
+  | none => "bad-op"
+  | some b => match parseM b with
+    | none => "bad-op"
+    | some m => f m
+
+open ScionVerif.OneHop in
+def withOneHop (hx : String) (f : OneHopV → String) : String :=
+  match parseHex hx with
+  | none => "bad-op"
+  | some b => match ScionVerif.OneHop.ofBytes b with
+    | none => "rejected"
+    | some (v, _) => f v
+
+def step (_ : Unit) : List String → Unit × String
+  | ["parse", hx] => ((), match parseHex hx with
+    | none => "bad-op"
+    | some b => match ofBytes b with
+      | none => "err"
+      | some (_, rest) => s!"ok {b.length - rest.length}")
+  | ["vrev", hx] => ((), withView hx fun p rest =>
+      match reverseView p with
+      | (q, .ok _) => s!"ok {toHex (q.toBytes ++ rest)}"
+      | (q, .error _) => s!"err {toHex (q.toBytes ++ rest)}")
+  | ["vexp", hx] => ((), withView hx fun p _ => match p.expiration with
+      | some e => toString e | none => "panic")
+  | ["vq", hx] => ((), withView hx fun p _ => vq p)
+  | ["vmodel", hx] => ((), withView hx fun p _ => toHex (showM (fromView p)))
+  | ["mrev", hx] => ((), withModel hx fun m => match reverseModel m with
+      | (q, .ok _) => s!"ok {toHex (showM q)}"
+      | (q, .error _) => s!"err {toHex (showM q)}")
+  | ["mexp", hx] => ((), withModel hx fun m => toString m.expiration)
+  | ["mq", hx] => ((), withModel hx fun m =>
+      s!"ic={m.infoCount} hc={m.hopCount} segs={m.segLen 0},{m.segLen 1},{m.segLen 2}")
+  | ["menc", hx] => ((), withModel hx fun m => match m.encode with
+      | some p => s!"ok {toHex p.toBytes}" | none => "err")
+  | ["ohparse", hx] => ((), match parseHex hx with
+    | none => "bad-op"
+    | some b => match ScionVerif.OneHop.ofBytes b with
+      | none => "err" | some (_, rest) => s!"ok {b.length - rest.length}")
+  | ["ohvrev", hx] => ((), withOneHop hx fun v => match ScionVerif.OneHop.reverseView v with
+      | (q, .ok _) => s!"ok {toHex q.toBytes}"
+      | (q, .error _) => s!"err {toHex q.toBytes}")
+  | ["ohmrev", hx] => ((), withOneHop hx fun v =>
+      match ScionVerif.OneHop.reverseModel (ScionVerif.OneHop.fromView v) with
+      | (q, .ok _) => s!"ok {toHex q.encode.toBytes}"
+      | (q, .error _) => s!"err {toHex q.encode.toBytes}")
+  | ["ohexp", hx] => ((), withOneHop hx fun v => toString v.expiration)
+  | ["ohvset", adv, key, hx] => ((), match parseHex key with
+    | some k => if k.length ≠ 16 ∨ (adv ≠ "0" ∧ adv ≠ "1") then "bad-op" else
+      withOneHop hx fun v => toHex (ScionVerif.OneHop.setSecondHopView aesMac v 0x1234 k (adv == "1")).toBytes
+    | none => "bad-op")
+  | ["ing", fi, key, hx] => ((),
+    if fi ≠ "0" ∧ fi ≠ "1" then "bad-op" else
+    match validatorOf key with
+    | none => "bad-op"
+    | some val => withView hx fun p rest =>
+      match advanceIngress val (fi == "1") p with
+      | (q, .ok o) =>
+        let act := match o.action with
+          | .forwardLocal => "local" | .continueEgress e => s!"egress:{e}"
+        s!"ok a={b01 o.alert} if={o.ingressIf} act={act} v={b01 o.valid} {toHex (q.toBytes ++ rest)}"
+      | (q, .err e) => s!"{advErr e} {toHex (q.toBytes ++ rest)}"
+      | (q, .panic) => s!"panic {toHex (q.toBytes ++ rest)}")
+  | ["egr", key, hx] => ((),
+    match validatorOf key with
+    | none => "bad-op"
+    | some val => withView hx fun p rest =>
+      match advanceEgress val p with
+      | (q, .ok o) => s!"ok a={b01 o.alert} if={o.egressIf} v={b01 o.valid} {toHex (q.toBytes ++ rest)}"
+      | (q, .err e) => s!"{advErr e} {toHex (q.toBytes ++ rest)}"
+      | (q, .panic) => s!"panic {toHex (q.toBytes ++ rest)}")
+  | _ => ((), "bad-op")
+
+def main : IO Unit := Driver.run () step
